@@ -425,6 +425,15 @@ def check_C06(tier, replay):
         jobs.append(ej.job(f"reuse.{r}", c, inputs, r % 2, [0], cap=0, pol={"kind": "Oldest"}, events=False, probes=True,
                            content_phases=["masked inputs", "wire shares"],
                            tag={"grp": "reuse", "h": h, "canary": True, "reuse": True}))
+    # distinct wires carry independent masks: one observed party, one circuit with several batches of random shares,
+    # 40 runs (Mon_C06: no two input wires with the same share of the party in every run)
+    for h in ([1] if q else [0, 1]):
+        c = input_circuit(2, 520, outs=1)
+        inputs = [[rng.random() < 0.5 for _ in range(520)] for _ in range(2)]
+        for r in range(40 if q else 48):
+            jobs.append(ej.job(f"dupw.h{h}.{r}", c, inputs, (h + r) % 2, [0], cap=0, pol={"kind": "Oldest"}, events=False,
+                               probes=True, content_phases=["masked inputs", "wire shares"],
+                               tag={"grp": f"dupw.h{h}", "h": h, "canary": True, "reuse": False, "dupw": True}))
     out = vlib.run_pt("engine", jobs, wd, name="c06", timeout=7200)
     res = vlib.tlc_trace("Mon_C06", vlib.MON_CFG, out, wd, depth_first=False, timeout=3600)
     jb = {j["id"]: j for j in jobs}
